@@ -275,3 +275,29 @@ pub fn column_batch(
 {
     crate::engine::core::read::flow::ColumnBatch::new(schema, columns, len, None)
 }
+
+// ---------------------------------------------------------------------------------------
+// Session-token clock and HMAC helper (auth checks).
+
+fn token_clock() -> &'static Mutex<Option<u64>> {
+    static C: OnceLock<Mutex<Option<u64>>> = OnceLock::new();
+    C.get_or_init(|| Mutex::new(None))
+}
+
+/// Fixes the second the session-token code reads as "now" (`None` = real clock).
+pub fn set_token_clock(v: Option<u64>) {
+    *token_clock().lock().unwrap() = v;
+}
+
+pub fn token_now_secs() -> Option<u64> {
+    *token_clock().lock().unwrap()
+}
+
+/// HMAC-SHA256 hex exactly as `engine/auth/signature.rs` computes it.
+pub fn hmac_hex(key: &[u8], msg: &[u8]) -> String {
+    use hmac::{Hmac, Mac};
+    use sha2::Sha256;
+    let mut mac = <Hmac<Sha256>>::new_from_slice(key).expect("HMAC accepts any key length");
+    mac.update(msg);
+    hex::encode(mac.finalize().into_bytes())
+}
